@@ -1,11 +1,12 @@
 import Driver.OpsConfig
 import Driver.OpsUnit
+import Driver.OpsPki
 /-! Line-protocol driver: reads one JSON object per line (`op`, `id`, `in`, `out`) from stdin,
     runs the Lean model and the specification on it, and prints one verdict per line. -/
 open Lean Driver
 
 def table : List (String × OpFn) :=
-  [("merge", opMerge), ("validate", opValidate), ("rdn", opRdn), ("raw", opRaw), ("validity", opValidity)]
+  [("merge", opMerge), ("validate", opValidate), ("rdn", opRdn), ("raw", opRaw), ("validity", opValidity), ("pki", opPki)]
 
 def handleLine (view : String) (line : String) : String :=
   match Json.parse line with
